@@ -155,10 +155,10 @@ func (s *schemaPropsValidator) validateAnyOf(data interface{}, mainResult, keepR
 	var bestFailures *Result
 
 	for i, anyOfSchema := range s.anyOfValidators {
-		result := anyOfSchema.Validate(data)
 		if s.Options.recycleValidators {
-			s.anyOfValidators[i] = nil
+			s.anyOfValidators[i] = nil // the validator redeems itself, even when it panics
 		}
+		result := anyOfSchema.Validate(data)
 		// We keep inner IMPORTANT! errors no matter what MatchCount tells us
 		keepResultAnyOf.Merge(result.keepRelevantErrors()) // merges (and redeems) a new instance of Result
 
@@ -200,10 +200,10 @@ func (s *schemaPropsValidator) validateOneOf(data interface{}, mainResult, keepR
 	)
 
 	for i, oneOfSchema := range s.oneOfValidators {
-		result := oneOfSchema.Validate(data)
 		if s.Options.recycleValidators {
-			s.oneOfValidators[i] = nil
+			s.oneOfValidators[i] = nil // the validator redeems itself, even when it panics
 		}
+		result := oneOfSchema.Validate(data)
 
 		// We keep inner IMPORTANT! errors no matter what MatchCount tells us
 		keepResultOneOf.Merge(result.keepRelevantErrors()) // merges (and redeems) a new instance of Result
@@ -256,10 +256,10 @@ func (s *schemaPropsValidator) validateAllOf(data interface{}, mainResult, keepR
 	var validated int
 
 	for i, allOfSchema := range s.allOfValidators {
-		result := allOfSchema.Validate(data)
 		if s.Options.recycleValidators {
-			s.allOfValidators[i] = nil
+			s.allOfValidators[i] = nil // the validator redeems itself, even when it panics
 		}
+		result := allOfSchema.Validate(data)
 		// We keep inner IMPORTANT! errors no matter what MatchCount tells us
 		keepResultAllOf.Merge(result.keepRelevantErrors())
 		if result.IsValid() {
@@ -278,10 +278,11 @@ func (s *schemaPropsValidator) validateAllOf(data interface{}, mainResult, keepR
 }
 
 func (s *schemaPropsValidator) validateNot(data interface{}, mainResult *Result) {
-	result := s.notValidator.Validate(data)
+	notValidator := s.notValidator
 	if s.Options.recycleValidators {
-		s.notValidator = nil
+		s.notValidator = nil // the validator redeems itself, even when it panics
 	}
+	result := notValidator.Validate(data)
 	// We keep inner IMPORTANT! errors no matter what MatchCount tells us
 	if result.IsValid() {
 		mainResult.AddErrors(mustNotValidatechemaMsg(s.Path))
